@@ -1070,3 +1070,274 @@ func intWidth(bt *types.Basic) int {
 	}
 	return 64
 }
+
+// ====================== second hunting round (DESIGN §3: N13, N14, P1, P2) ======================
+
+// compiledFiltersFresh: the filters a generic filter hands out do not point into state that a later compilation
+// overwrites: no value stored as compiledQuery.filter, and no Filter field of a RelationFilter built by FilterN.Filter, is
+// the address of a field of the receiver (a struct embedded in the generic filter); pointers are loaded from pointer fields,
+// which Compile re-allocates.
+func compiledFiltersFresh(p *Prog, r *Reporter) {
+	n := 0
+	embedded := func(v ssa.Value) (string, bool) {
+		// the address of a (possibly nested) field of a parameter, reached without loading a pointer
+		a := v
+		name := ""
+		for {
+			fa, ok := a.(*ssa.FieldAddr)
+			if !ok {
+				break
+			}
+			if name == "" {
+				name = fieldName(fa.X.Type(), fa.Field)
+			}
+			a = fa.X
+		}
+		_, isP := a.(*ssa.Parameter)
+		return name, isP && name != ""
+	}
+	for _, fn := range p.Funcs {
+		if fn.Pkg == nil || fn.Pkg.Pkg.Name() != "generic" || fn.Blocks == nil {
+			continue
+		}
+		isCompile := typeName(recvType(fn)) == "compiledQuery" && cname(fn) != "Register" && cname(fn) != "Unregister"
+		isFilter := cname(fn) == "Filter" && fn.Signature.Recv() != nil
+		if !isCompile && !isFilter {
+			continue
+		}
+		for _, b := range fn.Blocks {
+			for _, ins := range b.Instrs {
+				st, ok := ins.(*ssa.Store)
+				if !ok {
+					continue
+				}
+				fa, ok := st.Addr.(*ssa.FieldAddr)
+				if !ok {
+					continue
+				}
+				owner, fld := typeName(fa.X.Type()), fieldName(fa.X.Type(), fa.Field)
+				if !(owner == "compiledQuery" && fld == "filter") && !(owner == "RelationFilter" && fld == "Filter") {
+					continue
+				}
+				mi, ok := st.Val.(*ssa.MakeInterface)
+				if !ok {
+					continue
+				}
+				if _, isPtr := mi.X.Type().Underlying().(*types.Pointer); !isPtr {
+					continue // a value (the include mask): copied
+				}
+				n++
+				sub, emb := embedded(mi.X)
+				construct := fmt.Sprintf("%s.%s = pointer #%d", owner, fld, n)
+				if emb {
+					r.Bad(p.FuncName(fn), construct, p.Pos(st.Pos()), "the filter handed out points at "+sub+", a struct embedded in the generic filter that the next compilation overwrites in place: queries still open and filters handed out earlier change their selection when the generic filter is reconfigured or used with another world")
+				} else {
+					r.OK(p.FuncName(fn), construct, p.Pos(st.Pos()), "the pointer is loaded from a pointer field or freshly allocated, not the address of state embedded in the generic filter")
+				}
+			}
+		}
+	}
+	if n == 0 {
+		r.Anchor("generic: a pointer stored as compiled filter / relation filter's inner filter")
+	}
+}
+
+// recycleAfterTableEvents: in a function that delivers removal events for the rows of a table and recycles their handles,
+// no handle is recycled where a notification can still follow before the table is emptied: within the removal window a
+// listener must not see handles that are dead but still listed in their table.
+func recycleAfterTableEvents(p *Prog, r *Reporter) {
+	n := 0
+	for _, fn := range p.Funcs {
+		if fn.Pkg == nil || fn.Pkg.Pkg.Name() != "ecs" || fn.Blocks == nil {
+			continue
+		}
+		isRecycle := func(i ssa.Instruction) bool {
+			c, ok := i.(ssa.CallInstruction)
+			if !ok {
+				return false
+			}
+			sc := c.Common().StaticCallee()
+			return sc != nil && cname(sc) == "Recycle" && typeName(recvType(sc)) == "entityPool"
+		}
+		isNotify := func(i ssa.Instruction) bool {
+			c, ok := i.(ssa.CallInstruction)
+			return ok && c.Common().IsInvoke() && c.Common().Method.Name() == "Notify"
+		}
+		isEmpty := func(i ssa.Instruction) bool {
+			c, ok := i.(ssa.CallInstruction)
+			if !ok {
+				return false
+			}
+			sc := c.Common().StaticCallee()
+			if sc == nil {
+				return false
+			}
+			return (cname(sc) == "Reset" || cname(sc) == "Remove") && typeName(recvType(sc)) == "archetype"
+		}
+		hasNotify := false
+		for _, b := range fn.Blocks {
+			for _, ins := range b.Instrs {
+				if isNotify(ins) {
+					hasNotify = true
+				}
+			}
+		}
+		if !hasNotify {
+			continue
+		}
+		kfn := 0
+		for _, b := range fn.Blocks {
+			for k, ins := range b.Instrs {
+				if !isRecycle(ins) {
+					continue
+				}
+				n++
+				kfn++
+				// forward from the recycle: a Notify reachable without passing a call that empties the table?
+				bad := token.NoPos
+				seen := map[*ssa.BasicBlock]bool{}
+				var walk func(x *ssa.BasicBlock, from int)
+				walk = func(x *ssa.BasicBlock, from int) {
+					for j := from; j < len(x.Instrs); j++ {
+						if isEmpty(x.Instrs[j]) {
+							return
+						}
+						if isNotify(x.Instrs[j]) {
+							bad = x.Instrs[j].Pos()
+							return
+						}
+					}
+					for _, s := range x.Succs {
+						if !seen[s] {
+							seen[s] = true
+							walk(s, 0)
+						}
+					}
+				}
+				walk(b, k+1)
+				construct := fmt.Sprintf("handle recycled #%d", kfn)
+				if bad == token.NoPos {
+					r.OK(p.FuncName(fn), construct, p.Pos(ins.Pos()), "no notification can follow before the table is emptied")
+				} else {
+					r.Bad(p.FuncName(fn), construct, p.Pos(ins.Pos()), "after this handle is recycled a removal event (at "+p.Pos(bad)+") can still be delivered before the table is emptied: inside that event the listener sees a handle that is dead (Alive false) but still yielded by queries")
+				}
+			}
+		}
+	}
+	if n == 0 {
+		r.Anchor("a function that notifies and recycles handles")
+	}
+}
+
+// closeGuarded: the function that releases a query's lock bit does so only after a test of the query's own state: a
+// second Close of a query whose bit was re-issued to another query must not release that other query's lock.
+func closeGuarded(p *Prog, r *Reporter) {
+	n := 0
+	for _, fn := range p.Funcs {
+		if fn.Pkg == nil || fn.Pkg.Pkg.Name() != "ecs" || fn.Blocks == nil {
+			continue
+		}
+		for _, site := range callsIn(fn) {
+			sc := site.Common().StaticCallee()
+			if sc == nil || cname(sc) != "unlock" || typeName(recvType(sc)) != "World" || len(site.Common().Args) < 2 {
+				continue
+			}
+			// the bit released is a field of a Query
+			o, f, base, ok := loadedField(site.Common().Args[1])
+			if !ok || o != "Query" {
+				continue
+			}
+			n++
+			// dominated by a branch on a field of the same query
+			guarded := false
+			for _, b := range fn.Blocks {
+				atom, _, okc := ifCond(b)
+				if !okc || !(b == site.Block() || dominatesBlock(b, site.Block())) || b == site.Block() {
+					continue
+				}
+				var uses func(v ssa.Value, d int) bool
+				uses = func(v ssa.Value, d int) bool {
+					if d > 4 || v == nil {
+						return false
+					}
+					if o2, _, b2, ok := loadedField(v); ok && o2 == "Query" && b2 == base {
+						return true
+					}
+					if ins, ok := v.(ssa.Instruction); ok {
+						for _, op := range ins.Operands(nil) {
+							if *op != nil && uses(*op, d+1) {
+								return true
+							}
+						}
+					}
+					return false
+				}
+				if uses(atom, 0) {
+					guarded = true
+				}
+			}
+			construct := "releases Query." + f
+			if guarded {
+				r.OK(p.FuncName(fn), construct, p.Pos(site.Pos()), "the release is dominated by a test of the query's own state")
+			} else {
+				r.Bad(p.FuncName(fn), construct, p.Pos(site.Pos()), "the query's lock bit is released without a test that this query still holds it: Close() of a query that already finished, after its bit was re-issued to another query, silently releases that query's lock (the world is unlocked while a query is open)")
+			}
+		}
+	}
+	if n == 0 {
+		r.Anchor("a release of a Query's lock bit")
+	}
+}
+
+// batchCountOnEveryReturn: a batch mover that returns the number of matching entities returns a value built from the
+// matched tables' lengths on every return, not a constant.
+func batchCountOnEveryReturn(p *Prog, r *Reporter) {
+	n := 0
+	for _, fn := range p.Funcs {
+		if fn.Pkg == nil || fn.Pkg.Pkg.Name() != "ecs" || fn.Blocks == nil || typeName(recvType(fn)) != "World" {
+			continue
+		}
+		res := fn.Signature.Results()
+		if res.Len() != 1 {
+			continue
+		}
+		if bt, ok := res.At(0).Type().Underlying().(*types.Basic); !ok || bt.Kind() != types.Int {
+			continue
+		}
+		// a batch mover: takes a Filter and calls getArchetypes
+		takesFilter := false
+		for _, pr := range fn.Params {
+			if typeName(pr.Type()) == "Filter" {
+				takesFilter = true
+			}
+		}
+		enumerates := false
+		for _, site := range callsIn(fn) {
+			if sc := site.Common().StaticCallee(); sc != nil && cname(sc) == "getArchetypes" {
+				enumerates = true
+			}
+		}
+		if !takesFilter || !enumerates {
+			continue
+		}
+		k := 0
+		for _, b := range fn.Blocks {
+			ret, ok := b.Instrs[len(b.Instrs)-1].(*ssa.Return)
+			if !ok {
+				continue
+			}
+			k++
+			n++
+			_, isConst := ret.Results[0].(*ssa.Const)
+			construct := fmt.Sprintf("return #%d", k)
+			if isConst {
+				r.Bad(p.FuncName(fn), construct, p.Pos(ret.Pos()), "the batch operation returns the constant "+exprString(ret.Results[0])+" on this path, before the filter was evaluated: the returned count is not the number of matching entities (and an unregistered filter handle goes unnoticed)")
+			} else {
+				r.OK(p.FuncName(fn), construct, p.Pos(ret.Pos()), "the returned count is computed from the matched tables")
+			}
+		}
+	}
+	if n == 0 {
+		r.Anchor("a batch mover returning a count")
+	}
+}
